@@ -2,7 +2,7 @@
    Model: Index/Sched.v (Index::update retry loop, Updater::update_index commit
    triggers, Reorg::{detect_reorg, handle_reorg, is_savepoint_required,
    update_savepoints}); block hashes are ancestry prefixes. *)
-From OrdV Require Import Base.Prelude Index.Sched Proofs.Sched_proofs.
+From OrdV Require Import Base.Prelude Index.Sched Proofs.Sched_proofs Proofs.Sched_exact.
 
 (* For every reachable durable state (Inv: each retained savepoint is a
    snapshot of a prefix of the indexed blocks), every parameter setting and
@@ -30,6 +30,29 @@ Proof.
   repeat split; try assumption; [apply B|apply B|apply C|apply C]; assumption.
 Qed.
 
+(* Exactly which reorganisations are undone.  For a reachable store whose
+   indexed blocks share l >= 1 blocks with the node's strictly longer best chain
+   and then diverge (l < number of indexed blocks): update returns Ok with
+   exactly the node's chain indexed if and only if the fork is inside
+   detect_reorg's depth bound AND the oldest retained savepoint holds at most the
+   l common blocks; in every other case it reports Unrecoverable, sets the flag
+   and leaves the database untouched. *)
+Theorem C14_recovers_exactly : forall p nd st fuel o st' flag tr,
+  params_ok p -> fixed p = true -> Inv st -> (2 <= fuel)%nat ->
+  let b := blocks (cur st) in
+  let l := N.of_nat (lcp b (chain nd)) in
+  1 <= l -> l < len b -> len b < len (chain nd) ->
+  update fuel p nd st [] = (o, st', flag, tr) ->
+  let recoverable :=
+    (len b - l + 1 <? (maxsp p - 1) * interval p + len b mod interval p) &&
+    match sps st with
+    | [] => false
+    | (_, snap) :: _ => len (blocks snap) <=? l
+    end in
+  (recoverable = true -> o = UOk /\ blocks (cur st') = chain nd) /\
+  (recoverable = false -> o = UUnrecoverable /\ st' = st /\ flag = true).
+Proof. exact update_fixed_recovers_iff. Qed.
+
 Theorem C14_initial_state_reachable : Inv empty_store.
 Proof. exact Inv_empty. Qed.
 
@@ -55,5 +78,6 @@ Example C14_nonvacuous_recovered :
 Proof. vm_compute. reflexivity. Qed.
 
 Print Assumptions C14_update_total_and_exact.
+Print Assumptions C14_recovers_exactly.
 Print Assumptions C14_initial_state_reachable.
 Print Assumptions C14_pinned_commit_livelock.
